@@ -1,0 +1,25 @@
+//go:build verif
+
+// Package verifhook provides scheduling points for the verification harness.
+// It is compiled to a no-op unless the "verif" build tag is set.
+package verifhook
+
+import "sync/atomic"
+
+var hook atomic.Pointer[func(string)]
+
+// Set installs f as the hook invoked at each Point, or removes it if f == nil.
+func Set(f func(site string)) {
+	if f == nil {
+		hook.Store(nil)
+	} else {
+		hook.Store(&f)
+	}
+}
+
+// Point reports that the calling goroutine has reached the named site.
+func Point(site string) {
+	if f := hook.Load(); f != nil {
+		(*f)(site)
+	}
+}
